@@ -13,7 +13,7 @@ from vf import pool_checks
 PROP = "C05"
 LEVEL = "exploration"
 RULE = ("base cases: FunctorMap with workers 1-5 and 1-4 fully consumed calls (lengths 0, 1, <workers, up to 60; chunk "
-        "sizes 1-9; list/generator/slow inputs; results of 16 bytes or of 70-200 kB each, i.e. larger than the result pipe) or 1-3 mul_p_map calls in one process (workers 1-5, lengths 0-40); "
+        "sizes 1-9; list/generator/slow/deque/integer-indexed-sequence inputs; one base with a 6.5 s idle period between two calls (12-31 s in thorough); results of 16 bytes or of 70-200 kB each, i.e. larger than the result pipe) or 1-3 mul_p_map calls in one process (workers 1-5, lengths 0-40); "
         "per-item functor delays that make each chunk in turn the slowest, reverse the arrival order or alternate. Each "
         "base case: dry run, one run per (executed statement, occurrence) with a 120 ms delay in parent and worker "
         "code, random 2-3 delay combinations, forced GIL hand-offs. Oracles: returned sequence == [f(x)] per call "
@@ -33,6 +33,12 @@ SHARD_BUDGET_S = {"quick": 80, "thorough": 1500}
 
 
 def gen_base(rng, tier, index):
+    if index == 15 or (tier == "thorough" and index % 40 == 15):
+        # the caller is idle for several seconds between two calls / while it holds an open map: workers must still be there
+        pause = 6.5 if tier == "quick" else rng.choice([6.5, 12.0, 31.0])
+        return {"kind": "fmap", "pool": "fmap", "workers": 2, "no_sweep": True, "limit_factor": 3,
+                "calls": [{"ordered": True, "n": 6, "chunk": 2, "form": "list", "pause_after": pause},
+                          {"ordered": True, "n": 9, "chunk": 1, "form": "gen"}]}
     kind = "mulpmap" if index % 3 == 2 else "fmap"
     workers = rng.choice([1, 2, 2, 3, 4, 5])
     ncalls = rng.randint(1, 4) if kind == "fmap" else rng.randint(1, 3)
@@ -48,7 +54,7 @@ def gen_base(rng, tier, index):
             n = rng.randint(1, max(1, workers - 1))
         else:
             n = rng.randint(2, 60 if kind == "fmap" else 40)
-        call = {"ordered": True, "n": n, "chunk": chunk, "form": rng.choice(["list", "list", "gen", "slow"]),
+        call = {"ordered": True, "n": n, "chunk": chunk, "form": rng.choice(["list", "list", "gen", "slow", "deque", "intseq"]),
                 "salt": rng.randrange(1000)}
         if call["form"] == "slow":
             call["slow"] = {"before": {str(rng.randrange(max(1, n))): 0.03} if n else {}, "stop": rng.choice([0, 0.05])}
